@@ -21,7 +21,7 @@ ASSUMPTIONS = ['hashlib.sha256 equals the model driver SHA-256 (validated on eve
                'supported domain: string-keyed JSON-like parameter values, ReprStr, Path parameters; parameter objects are opaque reprs']
 TRUSTED = ['modelled, not verified: Python repr of int/float/bool/None/str, sorted() on str, f-strings, pathlib joining']
 
-EXT = {'json': 'json', 'numpy': 'npy', 'pandas': 'pd', 'generated': 'jsonl', 'genempty': 'jsonl'}
+EXT = {'json': 'json', 'jsontuple': 'json', 'numpy': 'npy', 'pandas': 'pd', 'generated': 'jsonl', 'genempty': 'jsonl'}
 
 
 def model_reqs(tasks, keys_by_name, mode):
